@@ -547,8 +547,8 @@ func (it *Interp) checkStats(b *Backend, sigp string) {
 	if st.Observers != no {
 		fail(sigp+"|world|observers", "%s: Observers=%d, model %d", where, st.Observers, no)
 	}
-	if len(st.ComponentTypes) != b.Cfg.Filler+comps.N || len(st.ComponentTypeNames) != len(st.ComponentTypes) {
-		fail(sigp+"|world|component-types", "%s: %d component types reported, %d registered", where, len(st.ComponentTypes), b.Cfg.Filler+comps.N)
+	if len(st.ComponentTypes) != b.Cfg.Filler+comps.N+it.M.Extra || len(st.ComponentTypeNames) != len(st.ComponentTypes) {
+		fail(sigp+"|world|component-types", "%s: %d component types reported, %d registered", where, len(st.ComponentTypes), b.Cfg.Filler+comps.N+it.M.Extra)
 	}
 	if b.Trace != nil {
 		b.tr("stats %+v mem=%d/%d arch=%d", en, st.MemoryUsed, st.Memory, len(st.Archetypes))
